@@ -23,15 +23,19 @@ SPECS = [
  ('efficiency_bin', 'efficiency', 'bu', 's', ()), ('efficiency_bin_local', 'efficiency', 'bu', 'v', ()), ('efficiency_wei', 'efficiency', 'wu', 's', ()),
  ('betweenness_bin', 'centrality', 'bd', 'v', ()), ('betweenness_wei', 'centrality', 'ld', 'v', ()), ('edge_betweenness_bin', 'centrality', 'bd', 'mv', ()),
  ('edge_betweenness_wei', 'centrality', 'ld', 'mv', ()),
+ ('betweenness_wei', 'centrality', 'bd', 'v', ()), ('edge_betweenness_wei', 'centrality', 'bd', 'mv', ()), ('distance_wei', 'distance', 'bd', 'm-', ()), ('distance_wei_floyd', 'distance', 'bd', 'm--', ()),
+ ('betweenness_wei', 'centrality', 'bu', 'v', ()), ('efficiency_wei', 'efficiency', 'bu', 's', ()), ('efficiency_wei_local', 'efficiency', 'bu', 'v', ()),
  ('kcore_bu', 'core', 'bu', 'ms', (2,)), ('kcore_bd', 'core', 'bd', 'ms', (2,)), ('score_wu', 'core', 'wu', 'ms', (Fraction(3, 2),)),
  ('kcoreness_centrality_bu', 'centrality', 'bu', 'vs', ()), ('kcoreness_centrality_bd', 'centrality', 'bd', 'vs', ()),
  ('rich_club_bu', 'core', 'bu', 'sss', ()), ('rich_club_bd', 'core', 'bd', 'sss', ()), ('assortativity_bin', 'core', 'bu', 's', ()), ('assortativity_wei', 'core', 'wu', 's', ()),
  ('matching_ind', 'similarity', 'bd', 'mmm', ()), ('edge_nei_overlap_bu', 'similarity', 'bu', 'm--', ()), ('edge_nei_overlap_bd', 'similarity', 'bd', 'm--', ()),
  ('gtom', 'similarity', 'bu', 'm', (1,)), ('gtom', 'similarity', 'bu', 'm', (2,)), ('flow_coef_bd', 'centrality', 'bd', 'vs-', ()),
- ('participation_coef', 'centrality', 'wu+ci', 'v', ()), ('module_degree_zscore', 'centrality', 'wu+ci', 'v', ()), ('get_components', 'clustering', 'bu', 'ps', ()),
+ ('participation_coef', 'centrality', 'wu+ci', 'v', ()), ('module_degree_zscore', 'centrality', 'wu+ci', 'v', ()), ('get_components', 'clustering', 'bu', 'pd', ()),
 ]
 FUNCTIONS = sorted({s[0].replace('_local', '') for s in SPECS})
-ALLOWED_EXCEPTIONS = {}
+# an edge whose endpoints have no other neighbour makes edge_nei_overlap_* divide 0 by 0 with python ints (ZeroDivisionError on the
+# real code, NaN in the MATLAB original): outside the measure's domain, the path is skipped (noted in DESIGN section 5)
+ALLOWED_EXCEPTIONS = {'edge_nei_overlap_bu': ('ZeroDivisionError',), 'edge_nei_overlap_bd': ('ZeroDivisionError',)}
 GUARDS = [dict(note='asymmetric_graph', min=1, why='some explored graph must not be invariant under the permutation')]
 ASSUMPTIONS = ['one path per labelled graph (all undirected graphs on 4 nodes / all digraphs on 3 nodes / a seeded family of 64 digraphs on 4 nodes); weights, cube-root weights and lengths symbolic on the forked support',
                'tie-dependent auxiliary outputs (hop matrix of distance_wei, hops/Pmat of distance_wei_floyd, edge lists) are not compared; LAPACK-based measures (pagerank, eigenvector, subgraph centrality) are not encoded',
@@ -58,10 +62,12 @@ def cases(tier, seed):
     for t, (fn, mod, kind, spec, extra) in enumerate(SPECS):
         und = kind[1] == 'u'
         fams = [(4, True, {})] if und else [(3, False, {}), (4, False, fam)]
+        if fn in ('distance_wei', 'distance_wei_floyd', 'efficiency_wei', 'betweenness_wei', 'edge_betweenness_wei') and q and kind[0] not in 'b': fams = [(3, False, {})] if not und else [(3, True, {})]       # two Dijkstra runs per path fork on support and ties: 4-node family is thorough-tier
         for n, u, fixed in fams:
             for p in perms(n):
                 cs.append(dict(name='%s%s/%s/n%d/perm%s' % (fn, ''.join(map(str, extra)) if extra else '', kind, n, ''.join(map(str, p))), fn=fn, mod=mod, ikind=kind, spec=spec,
-                               extra=[str(x) if isinstance(x, Fraction) else x for x in extra], n=n, undirected=u, fixed=fixed, perm=p, weight=50, shard_depth=4, optional=True))
+                               extra=[str(x) if isinstance(x, Fraction) else x for x in extra], n=n, undirected=u, fixed=fixed, perm=p, weight=50, shard_depth=4, optional=True,
+                               cfg=dict(lazy_where=True) if fn == 'distance_wei_floyd' else {}))
     return cs
 
 
@@ -135,6 +141,9 @@ def body(case, M):
             fb = list(np.asarray(b, dtype=object).reshape(-1)) if isinstance(b, np.ndarray) else [b]
             M.oblige('ret:scalar_shape#%d' % t, len(fa) == len(fb))
             for i, (x, y) in enumerate(zip(fa, fb)): M.oblige('ret:scalar_or_distribution_unchanged#%d_%d' % (t, i), eqv(M, y, x))
+        elif sp == 'd':
+            fa = sorted(M.int_value(x) for x in a); fb = sorted(M.int_value(x) for x in b)
+            M.oblige('ret:size_distribution_unchanged#%d' % t, fa == fb)
         elif sp == 'p':
             la = [M.int_value(x) for x in a]; lb = [M.int_value(x) for x in b]
             for i in range(n):
